@@ -140,3 +140,19 @@ package jsonrpc2
 //@ ensures [ends-only-on-read-error] err != nil
 //@ callreq getPendingChan [reply-delivered-under-its-own-id] : arg0 == string(msg.ID) && len(msg.ID) > 0 && msg.Request == nil
 //@ loop 0 invariant [lock] !held(r.mu)
+
+// ---- the stream codec (C17): messages are returned exactly once, in stream order, however the reader chunks them ----
+// codecInv: the codec's decoder (once created) pulls from the codec's own stream
+//@ pure codecInv(c *jsonCodec) bool = c.decoder != nil ==> c.decoder.dsrc == ref(c.rwc)
+// next(c): stream offset of the first byte that has not been delivered as part of a message yet
+//@ pure nextOffset(c *jsonCodec) int = ite(c.decoder == nil, c.rwc.rpos, c.decoder.dstart + c.decoder.dcons)
+
+//@ func (*jsonCodec).ReadMessage
+//@ property C17 C15
+//@ safety on
+//@ requires codec != nil && codecInv(codec)
+//@ ensures [inv]       codecInv(codec)
+//@ ensures [non-nil]   result != nil
+//@ ensures [in-order]  err == nil ==> result.msgstart == old(nextOffset(codec))
+//@ ensures [exactly-once] err == nil ==> nextOffset(codec) == old(nextOffset(codec)) + result.msglen
+//@ ensures [no-skipping] err != nil ==> nextOffset(codec) == old(nextOffset(codec)) || old(codec.decoder) == nil
